@@ -418,6 +418,15 @@ class SimPkgLoader(importlib.abc.Loader):
                 del module.__loader__
             except AttributeError:       # pragma: no cover
                 pass
+        for leaf in (w.packages.get(self.name) or {}).get("shadow") or ():
+            # the package's __init__ does "from .leaf import leaf": the
+            # sub-package is imported, and the NAME leaf in the package is
+            # bound to something that is not the sub-package
+            try:
+                importlib.import_module(self.name + "." + leaf)
+            except Exception:
+                pass
+            setattr(module, leaf, "not the sub-package of that name")
         if (w.packages.get(self.name) or {}).get("datatypes"):
             # a plain module that provides datatype functions (the same
             # callables as zcsim.simdt, under another dotted name)
